@@ -19,6 +19,7 @@ import LyModel.Ctx.Drv
 import LyModel.Merge.Drv
 import LyModel.Valid.Drv
 import LyModel.Fn.Drv
+import LyModel.Yin.Drv
 /-! Dispatch table of the line-protocol driver: one handler per component. -/
 namespace LyModel.Drv
 
@@ -45,6 +46,7 @@ def dispatch (comp op : String) (args : List String) : String :=
   | "merge" => Merge.Drv.handle op args
   | "valid" => Valid.Drv.handle op args
   | "fn" => Fn.Drv.handle op args
+  | "yin" => Yin.Drv.handle op args
   | _ => "err NoSuchComponent"
 
 end LyModel.Drv
